@@ -9,5 +9,15 @@ rc=0
 for p in github.com/scigolib/hdf5 github.com/scigolib/hdf5/internal/core github.com/scigolib/hdf5/internal/structures github.com/scigolib/hdf5/internal/writer github.com/scigolib/hdf5/internal/rebalancing; do
   (cd /repo && go test -c -tags verif -overlay /verif/.build/overlay.setup.json -vet=off -o /verif/.build/setup.test "$p") || { echo "setup: build of $p failed"; rc=1; }
 done
+# C18: instrumented sources (scheduler build), plain and -race
+if VERIF_SCHED=1 python3 tools/overlay.py .build/overlay.setup.json 2>/dev/null; then
+  for p in github.com/scigolib/hdf5 github.com/scigolib/hdf5/internal/structures github.com/scigolib/hdf5/internal/rebalancing; do
+    for flag in "" "-race"; do
+      (cd /repo && go test -c $flag -tags verif -overlay /verif/.build/overlay.setup.json -vet=off -o /verif/.build/setup.test "$p") || { echo "setup: scheduler build of $p ($flag) failed"; rc=1; }
+    done
+  done
+else
+  echo "setup: scheduler overlay generation failed"; rc=1
+fi
 rm -f .build/setup.test .build/overlay.setup.json
 exit $rc
